@@ -1,5 +1,4 @@
 CONSTANTS Recheck = {TRUE, FALSE} Honour = {TRUE, FALSE} MayCancel = TRUE AllowBadStart = TRUE
 SPECIFICATION TSpec
-CONSTRAINT HW
-INVARIANT NoStartAfterCancel ReturnInterrupted AllGoroutinesDone BoundRespected SemNonNegative AtMostOnce
+CONSTRAINT Live
 POSTCONDITION Accepted
